@@ -214,10 +214,10 @@ H['kill'] = dict(
             dict(name='signal_unit_n5', defs={'H_NODES': 5, 'H_PAT': 0, 'H_NPIDS': 1, 'H_MODE': 4, 'VSTL_VEC_MAX': 20}, props=['C01', 'C17'], reach_optional=True, timeout=7200),
             dict(name='rank_unit', defs={'H_NODES': 5, 'H_PAT': 0, 'H_NPIDS': 1, 'H_MODE': 5}, props=['C03'], reach_optional=True),
             dict(name='xattr_unit', defs={'H_NODES': 2, 'H_PAT': 0, 'H_NPIDS': 1, 'H_MODE': 3}, props=['C17'], reach_optional=True),
-            dict(name='walk_min', loop_bounds=[RETRY(3)], defs={'H_NODES': 3, 'H_PAT': 1, 'H_NPIDS': 1, 'H_NO_KERNELKILL': 1, 'H_NO_REAP': 1}, props=['C01', 'C03', 'C17'], reach_optional=True, timeout=10800),
         ],
         # further walk variants (not registered in a tier: no verdict within hours on this image; kept for larger machines)
         'extra': [
+            dict(name='walk_min', loop_bounds=[RETRY(3)], defs={'H_NODES': 3, 'H_PAT': 1, 'H_NPIDS': 1, 'H_NO_KERNELKILL': 1, 'H_NO_REAP': 1}, props=['C01', 'C03', 'C17'], reach_optional=True, timeout=10800),
             dict(name='star_n3', loop_bounds=[RETRY(4)], defs={'H_NODES': 3, 'H_PAT': 1, 'H_NPIDS': 2, 'H_NO_KERNELKILL': 1}, props=['C01', 'C03', 'C17'], reach_optional=True, timeout=20000),
             dict(name='star_n3_pref', loop_bounds=[RETRY(4)], defs={'H_NODES': 3, 'H_PAT': 1, 'H_NPIDS': 2, 'H_NO_KERNELKILL': 1, 'H_CUR': '{0,2,1,0,0}', 'H_XA': '{0,4,1,0,0}'}, props=['C01', 'C03', 'C17'], reach_optional=True, timeout=20000),
             dict(name='star_n5', loop_bounds=[RETRY(5)], defs={'H_NODES': 5, 'H_PAT': 1, 'H_NPIDS': 1, 'H_NO_KERNELKILL': 1}, props=['C01', 'C03', 'C17'], reach_optional=True, timeout=20000),
@@ -225,6 +225,32 @@ H['kill'] = dict(
             dict(name='drywet_n3', loop_bounds=[RETRY(3)], defs={'H_NODES': 3, 'H_PAT': 1, 'H_NPIDS': 1, 'H_MODE': 1, 'H_NO_KERNELKILL': 1}, props=['C04'], reach_optional=True, timeout=20000),
             dict(name='sub_n5', loop_bounds=[RETRY(4)], defs={'H_NODES': 5, 'H_PAT': 3, 'H_NPIDS': 2, 'H_NO_KERNELKILL': 1}, props=['C01', 'C03', 'C17'], reach_optional=True, timeout=20000),
         ],
+    },
+)
+
+H['rank'] = dict(
+    props=['C09'], dir='harness/rank',
+    oomd=KILL_OOMD + [('plugins/KillSwapUsage.cpp', NOREG)], cxx=['h_rank.cpp'] + KILL_ENV, c=['main_rank.c', 'env/libc_stubs.c'],
+    keep=['vfk_openat', 'vfk_syscall'], object_bits=14,
+    defs={'VSTL_STR_CAP': 24, 'VSTL_VEC_MAX': 4, 'VSTL_MAP_MAX': 12, 'VFW_MAXN': 5, 'VFW_MAXPIDS': 2, 'VF_CFG_N': 6},
+    unwind=13, unwind_big=25, timeout=2400,
+    functions=['Oomd::KillSwapUsage', 'Oomd::OomdContext::sortDescWithKillPrefs', 'Oomd::Util::parseSizeOrPercent', 'Oomd::BaseKillPlugin::init'],
+    variants={
+        'quick': [dict(name='swap_k40_s28', defs={'H_KMAX': 40, 'H_SHIFT': 28}), dict(name='swap_k5_s31', defs={'H_KMAX': 5, 'H_SHIFT': 31})],
+    },
+)
+
+H['stats'] = dict(
+    props=['C19'], dir='harness/stats',
+    oomd=['Stats.cpp', 'util/Util.cpp'], cxx=['h_stats.cpp'], c=['main_stats.c', 'env/stats_libc.c'],
+    override_cxx=['env/stats_overrides.cpp'], override_symbols=['_ZN4Oomd5Stats11startSocketEv'],
+    real_inc=['-I/usr/include/jsoncpp'], real_libs=['-ljsoncpp'],
+    defs={'VSTL_STR_CAP': 8, 'VSTL_VEC_MAX': 4, 'VSTL_MAP_MAX': 4},
+    unwind=9, unwind_big=36, timeout=900,
+    functions=['Oomd::Stats::processMsg', 'Oomd::Stats::reset', 'Oomd::Stats::getAll', 'Oomd::Stats::set'],
+    variants={
+        'quick': [dict(name='session_b3', defs={'H_NB': 3})],
+        'thorough': [dict(name='session_b3', defs={'H_NB': 3}), dict(name='session_b5', defs={'H_NB': 5}, timeout=3000)],
     },
 )
 
